@@ -307,6 +307,153 @@ func c12HasLinks(o *out) {
 	o.f("Definition %s (sys_ok : bool) (nlink : Z) : bool :=\n  let v_stat := 0 in let v_ok := false in\n  %s.\n(* from lib/binpatch/fileutil_unix.go:hasLinks; sys_ok = info.Sys() is a *syscall.Stat_t, nlink = its Nlink *)\n", coqName, body)
 }
 
+// c12AddHeap: what (*PatchSet).Add does with the byte slices themselves (aliasing). Emits
+//   add_merge_mode : Z   0 = the coalesced blob is a fresh make([]byte, add_merge_make_len) filled by two copy calls at
+//                            destination offsets add_merge_dst1 / add_merge_dst2; 1 = append(lastBlob, blob...) (writes into
+//                            the previous blob's backing array when it has spare capacity)
+//   add_stores_caller_slice : bool   the non-coalescing path stores the caller's slice itself
+//   add_writes_through_caller : bool  some statement writes through blob / lastBlob / p.Blobs[i] (copy destination, index
+//                            assignment, or append onto one of them)
+// any other shape of the merge is a broken tie: the aliasing model has to be revisited.
+func c12AddHeap(o *out) {
+	const d = "lib/binpatch"
+	p, fd := findFunc(d, "PatchSet", "Add")
+	if fd == nil {
+		o.brokenDef("add_merge_mode", "function lib/binpatch:PatchSet.Add not found")
+		return
+	}
+	txt := func(n ast.Node) string { return strings.Join(strings.Fields(printNode(p.fset, n)), " ") }
+	root := func(e ast.Expr) string { // the slice variable an expression is a view of
+		for {
+			switch x := e.(type) {
+			case *ast.SliceExpr:
+				e = x.X
+				continue
+			case *ast.ParenExpr:
+				e = x.X
+				continue
+			}
+			break
+		}
+		return txt(e)
+	}
+	callerOwned := func(s string) bool { return s == "blob" || s == "lastBlob" || strings.HasPrefix(s, "p.Blobs[") }
+	// ---- writes through caller-owned slices anywhere in Add
+	writes := []string{}
+	ast.Inspect(fd.Body, func(n ast.Node) bool {
+		switch x := n.(type) {
+		case *ast.CallExpr:
+			if id, ok := x.Fun.(*ast.Ident); ok && len(x.Args) >= 1 {
+				if (id.Name == "copy" || id.Name == "append" || id.Name == "clear") && callerOwned(root(x.Args[0])) {
+					writes = append(writes, txt(x))
+				}
+			}
+		case *ast.AssignStmt:
+			for _, l := range x.Lhs {
+				if ix, ok := l.(*ast.IndexExpr); ok && txt(l) != "p.Blobs[i]" && callerOwned(root(ix.X)) {
+					writes = append(writes, txt(x))
+				}
+			}
+		}
+		return true
+	})
+	o.f("Definition add_writes_through_caller : bool := %v. (* lib/binpatch:PatchSet.Add statements writing through blob/lastBlob/p.Blobs[i]: %s *)\n",
+		len(writes) > 0, strings.Join(writes, " ; "))
+	// ---- the non-coalescing store
+	stores := false
+	ast.Inspect(fd.Body, func(n ast.Node) bool {
+		if st, ok := n.(ast.Stmt); ok && txt(st) == "p.Blobs = append(p.Blobs, blob)" {
+			stores = true
+		}
+		return true
+	})
+	if !stores {
+		o.brokenDef("add_stores_caller_slice", "Add no longer contains `p.Blobs = append(p.Blobs, blob)`")
+	} else {
+		o.f("Definition add_stores_caller_slice : bool := true. (* lib/binpatch:PatchSet.Add contains `p.Blobs = append(p.Blobs, blob)` *)\n")
+	}
+	// ---- the merge in the coalesce branch
+	var block *ast.BlockStmt
+	var asg *ast.AssignStmt
+	nasg := 0
+	ast.Inspect(fd.Body, func(n ast.Node) bool {
+		if b, ok := n.(*ast.BlockStmt); ok {
+			for _, s := range b.List {
+				if a, ok := s.(*ast.AssignStmt); ok && len(a.Lhs) == 1 && txt(a.Lhs[0]) == "p.Blobs[i]" {
+					block, asg = b, a
+					nasg++
+				}
+			}
+		}
+		return true
+	})
+	if nasg != 1 || len(asg.Rhs) != 1 {
+		o.brokenDef("add_merge_mode", fmt.Sprintf("%d assignments to p.Blobs[i] in Add (expected 1)", nasg))
+		return
+	}
+	rhs := txt(asg.Rhs[0])
+	if rhs == "append(lastBlob, blob...)" && len(block.List) == 1 {
+		o.f("Definition add_merge_mode : Z := 1. (* lib/binpatch:PatchSet.Add : p.Blobs[i] = append(lastBlob, blob...) *)\n")
+		o.f("Definition add_merge_make_len (last_new new_len new_combo : Z) : Z := 0.\nDefinition add_merge_dst1 (last_new new_len : Z) : Z := 0.\nDefinition add_merge_dst2 (last_new new_len : Z) : Z := 0.\n")
+	} else {
+		id, ok := asg.Rhs[0].(*ast.Ident)
+		if !ok || len(block.List) != 4 {
+			o.brokenDef("add_merge_mode", "unrecognised construction of the coalesced blob: "+txt(block))
+			return
+		}
+		mk, ok0 := block.List[0].(*ast.AssignStmt)
+		c1, ok1 := block.List[1].(*ast.ExprStmt)
+		c2, ok2 := block.List[2].(*ast.ExprStmt)
+		if !ok0 || !ok1 || !ok2 || block.List[3] != ast.Stmt(asg) || mk.Tok != token.DEFINE || len(mk.Lhs) != 1 || txt(mk.Lhs[0]) != id.Name {
+			o.brokenDef("add_merge_mode", "unrecognised construction of the coalesced blob: "+txt(block))
+			return
+		}
+		mkc, okm := mk.Rhs[0].(*ast.CallExpr)
+		if !okm || txt(mkc.Fun) != "make" || len(mkc.Args) != 2 || txt(mkc.Args[0]) != "[]byte" {
+			o.brokenDef("add_merge_mode", "coalesced blob is not a fresh make([]byte, n): "+txt(mk))
+			return
+		}
+		fs := funcSpec{dir: d, recv: "PatchSet", name: "Add", leaves: map[string]string{
+			"len(lastBlob)": "last_new", "len(blob)": "new_len", "newCombo": "new_combo"}}
+		// destination offset and source of one copy call: copy(X[lo:], src) / copy(X, src)
+		cp := func(s *ast.ExprStmt, wantSrc string) (string, bool) {
+			ce, ok := s.X.(*ast.CallExpr)
+			if !ok || txt(ce.Fun) != "copy" || len(ce.Args) != 2 || txt(ce.Args[1]) != wantSrc {
+				return "", false
+			}
+			switch dst := ce.Args[0].(type) {
+			case *ast.Ident:
+				if dst.Name == id.Name {
+					return "0", true
+				}
+			case *ast.SliceExpr:
+				if txt(dst.X) == id.Name && dst.High == nil && dst.Max == nil && dst.Low != nil {
+					t := o.newTr(p, fs)
+					e := t.expr(dst.Low)
+					if t.err == nil {
+						return e, true
+					}
+				}
+			}
+			return "", false
+		}
+		d1, okc1 := cp(c1, "lastBlob")
+		d2, okc2 := cp(c2, "blob")
+		t := o.newTr(p, fs)
+		ml := t.expr(mkc.Args[1])
+		if !okc1 || !okc2 || t.err != nil {
+			o.brokenDef("add_merge_mode", "unrecognised copy statements building the coalesced blob: "+txt(block))
+			return
+		}
+		o.f("Definition add_merge_mode : Z := 0. (* lib/binpatch:PatchSet.Add : %s *)\n", txt(block))
+		o.f("Definition add_merge_make_len (last_new new_len new_combo : Z) : Z := %s.\n", ml)
+		o.f("Definition add_merge_dst1 (last_new new_len : Z) : Z := %s.\n", d1)
+		o.f("Definition add_merge_dst2 (last_new new_len : Z) : Z := %s.\n", d2)
+	}
+	o.condOf(funcSpec{dir: d, recv: "PatchSet", name: "Add", coqName: "add_merge_guard",
+		params: "(new_len : Z)", retType: "bool", leaves: map[string]string{"len(blob)": "new_len"}}, "if:len(blob)")
+}
+
 func init() {
 	generators["C12_gen"] = func(o *out) {
 		const d = "lib/binpatch"
@@ -356,6 +503,7 @@ func init() {
 				"hasLinks(outinfo)": "out_links", "hasLinks(ininfo)": "in_links"}})
 		c12HasLinks(o)
 		c12ApplyPrefix(o)
+		c12AddHeap(o)
 		o.hasStmt(d, "PatchSet", "Apply", "if _, err := infile.WriteAt(p.Blobs[i], patch.Offset); err != nil { return err }", "apply_writes_handle")
 		o.hasStmt(d, "PatchSet", "Apply", "return infile.Truncate(size)", "apply_truncates")
 		o.hasStmt(d, "PatchSet", "applyRewrite", "if _, err := infile.Seek(0, 0); err != nil { return err }", "rewrite_seeks_start")
